@@ -27,7 +27,8 @@ from ..translate import (TranslationError, get_function, strip_doc, translate_bo
 PROP = 'C20'
 THEOREMS = [
     'C20.euler_linear', 'C20.euler_taylor1', 'C20.rk4_linear', 'C20.rk4_taylor4_scalar',
-    'C20.euler_one_step_error', 'C20.rk4_one_step_error_scalar',
+    'C20.euler_one_step_error_scalar', 'C20.rk4_one_step_error_scalar',
+    'C20.relaxLoop_runs_once', 'C20.relax_climb_runs_when_requested',
     'C20.cd_cubic', 'C20.cd_exact_quadratic', 'C20.cd_error_second_order',
     'C20.rate_zero_iff', 'C20.climb_fixed_point', 'C20.climb_reverses_tangential',
     'C20.phaseSteps_le', 'C20.climb_runs_when_requested', 'C20.phaseSteps_stops_at_first_small',
@@ -111,6 +112,12 @@ PARTIAL = {
     'gradient_second_order_general': 'second order of the numerical gradient is proved for functions that are cubic '
     'along the coordinate axes (exact error c3 s^2); for general smooth functions it is measured on the implementation '
     '(error ratio on halving the step) on arrays of every leading shape',
+    'one_step_error_matrix': 'the one-step error BOUND against exp(hA) (order 2 for Euler, order 5 for Runge-Kutta) is '
+    'proved for real scalars only (euler_one_step_error_scalar, rk4_one_step_error_scalar, |h a| <= 1); for matrices of '
+    'every dimension the step is proved to BE the Taylor polynomial of exp(hA) of degree 1 / 4 applied to y '
+    '(euler_matrix, rk4_matrix, euler_linear, rk4_linear), so the error is the tail of the exponential series, but the '
+    'norm estimate of that tail is not a Lean theorem; the error ratio on halving the step is measured on the '
+    'implementation for dimensions 1-6',
 }
 GENERATED = ['Integrators', 'PathSource']
 
